@@ -531,4 +531,81 @@ example : patchInTable [4096, 8192, 100, 6442450944] [⟨0, 10⟩, ⟨1, 11⟩, 
     = some [⟨0, 9⟩, ⟨100, 12⟩, ⟨4096, 10⟩, ⟨8192, 11⟩, ⟨6442450944, 13⟩] := by
   simp [patchInTable, List.mergeSort, List.merge, List.MergeSort.Internal.splitInTwo, swLe]
 
+/-- mapping back what was mapped out, entry by entry -/
+theorem mapM_roundtrip {α β : Type} (f : α → Option β) (g : β → Option α)
+    (hfg : ∀ a b, f a = some b → g b = some a) :
+    ∀ (l : List α) (l' : List β), l.mapM f = some l' → l'.mapM g = some l := by
+  intro l
+  induction l with
+  | nil =>
+    intro l' h
+    simp at h
+    subst h
+    simp
+  | cons a rest ih =>
+    intro l' h
+    rw [List.mapM_cons] at h
+    cases hfa : f a with
+    | none => rw [hfa] at h; simp at h
+    | some b =>
+      cases hr : rest.mapM f with
+      | none => rw [hfa, hr] at h; simp at h
+      | some bs =>
+        rw [hfa, hr] at h
+        simp at h
+        subst h
+        rw [List.mapM_cons, hfg a b hfa, ih bs hr]
+        simp
+
+/-- one switch-table entry: the index that `patch_out` stores leads `patch_in` back to the same address -/
+theorem patch_entry_roundtrip (strings : List Int) (e e' : SwEntry)
+    (h : (if e.key = 0 then some { e with key := -1 }
+          else (indexOfPtr strings e.key).map (fun i => { e with key := (i : Int) })) = some e') :
+    (if e'.key = -1 then some { e' with key := 0 }
+     else if e'.key < 0 then none
+     else (strings[e'.key.toNat]?).map (fun p => { e' with key := p })) = some e := by
+  by_cases hz : e.key = 0
+  · rw [if_pos hz] at h
+    cases h
+    cases e with
+    | mk k a => simp at hz; subst hz; simp
+  · rw [if_neg hz] at h
+    rw [Option.map_eq_some_iff] at h
+    obtain ⟨i, hi, he⟩ := h
+    subst he
+    unfold indexOfPtr at hi
+    by_cases hlt : List.findIdx (fun x => x == e.key) strings < strings.length
+    · simp only [hlt, if_true] at hi
+      cases hi
+      have hget := List.findIdx_getElem (p := fun x => x == e.key) (xs := strings) (w := hlt)
+      have hne1 : ¬ ((List.findIdx (fun x => x == e.key) strings : Nat) : Int) = -1 := by omega
+      have hnn : ¬ ((List.findIdx (fun x => x == e.key) strings : Nat) : Int) < 0 := by omega
+      simp only [hne1, hnn, if_false, Int.toNat_natCast]
+      rw [List.getElem?_eq_getElem hlt]
+      simp only [Option.map_some]
+      have : strings[List.findIdx (fun x => x == e.key) strings] = e.key := by simpa using hget
+      rw [this]
+    · simp only [hlt, if_false] at hi
+      cases hi
+
+/-- **patch_roundtrip**: `patch_in ∘ patch_out` restores every string switch table that `patch_out` can convert (every
+    key is the 0 label or the address of a string of the program): the same entries with the same addresses, in the
+    order `f_switch` searches — for ANY table, sorted or not, and any string table. -/
+theorem patch_roundtrip (strings : List Int) (es mid : List SwEntry)
+    (h : patchOutTable strings es = some mid) :
+    patchInTable strings mid = some (es.mergeSort swLe) ∧ (es.mergeSort swLe).Perm es ∧
+      (es.mergeSort swLe).Pairwise (fun a b => a.key ≤ b.key) := by
+  unfold patchOutTable at h
+  have hback := mapM_roundtrip _ _ (patch_entry_roundtrip strings) es mid h
+  refine ⟨?_, List.mergeSort_perm _ _, ?_⟩
+  · unfold patchInTable
+    rw [hback]
+    rfl
+  · have := List.pairwise_mergeSort (le := swLe) swLe_trans swLe_total es
+    exact this.imp (fun h => by simpa [swLe] using h)
+
+/-- non-vacuity: a table with the 0 label; addresses more than 2^32 apart -/
+example : patchOutTable [4096, 8192, 100, 6442450944] [⟨0, 9⟩, ⟨100, 12⟩, ⟨4096, 10⟩, ⟨6442450944, 13⟩]
+    = some [⟨-1, 9⟩, ⟨2, 12⟩, ⟨0, 10⟩, ⟨3, 13⟩] := by decide
+
 end NV.C17
